@@ -62,6 +62,7 @@ type BaseStore struct {
 	replicator        replicator.Replicator
 	index             iface.StoreIndex
 	replicationStatus replicator.ReplicationInfo
+	muStatus          sync.Mutex // makes each recalculation of replicationStatus one step
 
 	referenceCount   int
 	directory        string
@@ -984,6 +985,12 @@ func (b *BaseStore) appendAndPersistHead(ctx context.Context, oplog ipfslog.Log,
 	return e, nil
 }
 
+// the recalculate functions read the status, compare and write it back: muStatus makes each
+// of them one step, so that of two concurrent callers (writers, the reader of Load's progress
+// channel, the replicator's event loop) the slower one can't write back the smaller value it
+// computed from what it read earlier
+
+// recalculateReplicationProgress must be called with muStatus held
 func (b *BaseStore) recalculateReplicationProgress() {
 	max := b.ReplicationStatus().GetMax()
 	if progress := b.ReplicationStatus().GetProgress() + 1; progress < max {
@@ -997,7 +1004,8 @@ func (b *BaseStore) recalculateReplicationProgress() {
 	b.ReplicationStatus().SetProgress(max)
 }
 
-func (b *BaseStore) recalculateReplicationMax(max int) {
+// raiseReplicationMax must be called with muStatus held
+func (b *BaseStore) raiseReplicationMax(max int) {
 	if opLogLen := b.OpLog().Len(); opLogLen > max {
 		max = opLogLen
 	}
@@ -1009,8 +1017,18 @@ func (b *BaseStore) recalculateReplicationMax(max int) {
 	b.ReplicationStatus().SetMax(max)
 }
 
+func (b *BaseStore) recalculateReplicationMax(max int) {
+	b.muStatus.Lock()
+	defer b.muStatus.Unlock()
+
+	b.raiseReplicationMax(max)
+}
+
 func (b *BaseStore) recalculateReplicationStatus(maxTotal int) {
-	b.recalculateReplicationMax(maxTotal)
+	b.muStatus.Lock()
+	defer b.muStatus.Unlock()
+
+	b.raiseReplicationMax(maxTotal)
 	b.recalculateReplicationProgress()
 }
 
